@@ -539,6 +539,9 @@ def rewrite_locks(b):
         blk = re.sub(r'(?<![\w.>])' + name + r'\s*\.\s*unlock\s*\(\s*\)', 'VF_RELEASE(%s)' % M, blk)
         blk = re.sub(r'(?<![\w.>])' + name + r'\s*\.\s*lock\s*\(\s*\)', 'VF_ACQUIRE(%s)' % M, blk)
         blk = re.sub(r'(?<![\w.>])' + name + r'\s*\.\s*owns_lock\s*\(\s*\)', 'VF_HELD(%s)' % M, blk)
+        # predicate wait: cv.wait(l, [..]{ return P; })  ==  while (!(P)) cv.wait(l);
+        blk = re.sub(r'([\w.>-]+)\s*\.\s*wait\s*\(\s*' + name + r'\s*,\s*\[[^\]]*\]\s*(?:\(\s*\))?\s*(?:noexcept\s*)?\{\s*return\s+([^;{}]*);\s*\}\s*\)',
+                     lambda m: 'while (!(%s)) { VF_CV_WAIT(&(%s), %s); }' % (m.group(2), m.group(1), M), blk)
         blk = re.sub(r'([\w.>-]+)\s*\.\s*wait\s*\(\s*' + name + r'\s*\)', r'VF_CV_WAIT(&(\1), %s)' % M, blk)
         blk = re.sub(r'([\w.>-]+)\s*\.\s*wait_until\s*\(\s*' + name + r'\s*,', r'VF_CV_WAIT_UNTIL(&(\1), %s,' % M, blk)
         blk = re.sub(r'([\w.>-]+)\s*\.\s*wait_for\s*\(\s*' + name + r'\s*,', r'VF_CV_WAIT_FOR(&(\1), %s,' % M, blk)
